@@ -29,5 +29,5 @@ def run(tier, replay=None):
       ('random_1', lambda prog, r: V.annotate(prog, r)),
       ('random_2', lambda prog, r: V.annotate(prog, r)),
   ]
-  K.run_core(rep, PID, tier, PROFILE, variants, 50, 1200, 'c08', replay=replay, ok=ok, info=info, metamorphic=True)
+  K.run_core(rep, PID, tier, PROFILE, variants, 50, 500, 'c08', replay=replay, ok=ok, info=info, metamorphic=True)
   return rep.finish()
